@@ -123,7 +123,14 @@ def check(ctx):
     for qual in ("interface.FeatureDB.all_features", "interface.FeatureDB.features_of_type"):
         f = require_func(ctx, qual)
         ps = [p for p in f.params if p != "self"]
-        for variant, a in (("all arguments", {k: v for k, v in rep.items() if k in ps}), ("defaults", {k: v for k, v in rep.items() if k in ps and k == "featuretype"})):
+        variants = [("all arguments", {k: v for k, v in rep.items() if k in ps}), ("defaults", {k: v for k, v in rep.items() if k in ps and k == "featuretype"})]
+        # every way of asking for an order: each sortable name alone (string and one-item tuple), a two-key order, both directions
+        for ob in ("file_order", ("file_order",), "length", "id", "seqid", ("start", "file_order"), ["end", "start"]):
+            for rev in (False, True):
+                a_ = {k: v for k, v in rep.items() if k in ps and k == "featuretype"}
+                a_.update(order_by=ob, reverse=rev)
+                variants.append(("order_by=%r, reverse=%s" % (ob, rev), a_))
+        for variant, a in variants:
             try:
                 got = it.run(f, dict(a), self_obj=Opaque("self", "obj"))
                 ref = it.run(mq, dict(args=[], **a))
@@ -131,7 +138,9 @@ def check(ctx):
                 ctx.require(False, "%s outside the analysable subset: %s" % (qual, e))
             want = sorted({(norm_sql(t.result[1][0]), names(t.result[1][1])) for t in ref if t.result[0] == "return"})
             have = sorted({(norm_sql(e[1]), names(e[2])) for t in got for e in t.executes()})
-            ok = bool(want) and have == want
+            rw = sorted({t.result[1] for t in ref if t.result[0] == "raise"})
+            rh = sorted({t.result[1] for t in got if t.result[0] == "raise"})
+            ok = have == want and (bool(want) or (bool(rw) and rw == rh))
             ctx.ob("R1", ok, "%s runs exactly the statement make_query builds from its arguments, with the same bound values (%s)" % (f.name, variant), func=f,
                    sig="%s forwards %s" % (f.name, variant) if ok else "%s (%s) executes %s, make_query builds %s" % (f.name, variant, [h[0][-60:] + " " + str(h[1]) for h in have][:2],
                                                                                                                         [w[0][-60:] + " " + str(w[1]) for w in want][:2]))
